@@ -236,7 +236,8 @@ def check(ctx):
     from .. import wirecheck as WC
     prov = {tuple(f.get("decls", [])) for lab, f in WC.current().get("_parse_struct_or_union_specifier", {}).get("records", []) if lab == "Struct|Union"}
     both = any("None" in p for p in prov) and any("[]" in p for p in prov)
-    tests = [n for n in ast.walk(se) if isinstance(n, ast.If) and any(isinstance(x, ast.Name) and x.id == "members" for x in ast.walk(n.test))]
+    mvars = {t.id for a_ in ast.walk(se) if isinstance(a_, ast.Assign) and isinstance(a_.value, ast.Attribute) and a_.value.attr == "decls" for t in a_.targets if isinstance(t, ast.Name)}
+    tests = [n for n in ast.walk(se) if isinstance(n, ast.If) and any(isinstance(x, ast.Name) and x.id in mvars for x in ast.walk(n.test))]
     if not tests:
         raise AnalysisError("_generate_struct_union_enum: the test that decides whether a body is printed was not found")
     for tnode in tests:
@@ -250,8 +251,19 @@ def check(ctx):
     gt = g.methods.get("_generate_type")
     if gt is None:
         raise AnalysisError("CGenerator._generate_type vanished")
-    wraps = [n for n in ast.walk(gt) if isinstance(n, ast.If) and "modifiers[i - 1]" in S.unparse(n.test) and "PtrDecl" in S.unparse(n.test) and "i != 0" in S.unparse(n.test)
-             and any(isinstance(s, ast.Assign) and S.unparse(s.value) == "'(' + nstr + ')'" for s in n.body)]
+    def _wraps_self(st, left, right):
+        """`x = <left> + x [+ <right>]` on a local x"""
+        if not (isinstance(st, ast.Assign) and len(st.targets) == 1 and isinstance(st.targets[0], ast.Name)):
+            return False
+        x = st.targets[0].id
+        return S.unparse(st.value) == (f"{left!r} + {x} + {right!r}" if right is not None else f"{left!r} + {x}")
+
+    def _prev_is_ptr(test):
+        """`<i> != 0 and isinstance(modifiers[<i> - 1], c_ast.PtrDecl)` for the loop index <i> over enumerate(modifiers)"""
+        txt = S.unparse(test)
+        import re as _re
+        return bool(_re.fullmatch(r"(\w+) != 0 and isinstance\((\w+)\[\1 - 1\], c_ast\.PtrDecl\)", txt))
+    wraps = [n for n in ast.walk(gt) if isinstance(n, ast.If) and _prev_is_ptr(n.test) and any(_wraps_self(s, "(", ")") for s in n.body)]
     cases = {c.cls.attr: mc for mc in ast.walk(gt) if isinstance(mc, ast.match_case) for c in ast.walk(mc.pattern) if isinstance(c, ast.MatchClass) and isinstance(c.cls, ast.Attribute)}
     in_array = any(w in list(ast.walk(cases.get("ArrayDecl", ast.Pass()))) for w in wraps)
     in_func = any(w in list(ast.walk(cases.get("FuncDecl", ast.Pass()))) for w in wraps)
@@ -270,7 +282,7 @@ def check(ctx):
     if not ok:
         viol("R-C07.5", "modifier-walk", "_generate_type must walk `enumerate(modifiers)` in order", "CGenerator._generate_type", gt)
     ptr = cases.get("PtrDecl")
-    ok = ptr is not None and any(isinstance(s, ast.Assign) and S.unparse(s.value) == "'*' + nstr" for s in ast.walk(ptr))
+    ok = ptr is not None and any(_wraps_self(s, "*", None) for s in ast.walk(ptr))
     ctx.oblige("R-C07.5", "a pointer modifier prefixes '*'", ok)
     if not ok:
         viol("R-C07.5", "ptr-prefix", "the PtrDecl case must prefix the declarator with '*'", "CGenerator._generate_type", gt)
